@@ -243,6 +243,11 @@ def validate(ctx, spec, src, run, acc, datasets, extra=None):
             got = vals[int(t1)].astype(np.float64)
             if refv.size == 0:
               continue
+            if not (np.all(np.isfinite(refv)) and np.all(np.isfinite(got))) and common.has_hybrid_tensorwise_dwconv(run.out):
+              # astronomically large garbage from the non-reproducible hybrid DEPTHWISE_CONV kernel (KF-DWCONV-DRQ-TENSORWISE) overflows
+              # in a later float operator: that operator is not what is wrong
+              ctx.count('replay_overflow_downstream_of_hybrid_dwconv_skipped')
+              continue
             A = max(1.0, float(np.max(np.abs(refv))))
             diff = np.abs(refv - got)
             f = {'op': opn or 'OTHER', 'mode': mode}
